@@ -240,6 +240,10 @@ func bytesMuts(field string, b []byte) []bmut {
 		z := make([]byte, 129)
 		z[128] = 0x2a
 		out = append(out, bmut{"129-zero-padded", z, field == "balance"}, bmut{"200xff", bytes.Repeat([]byte{0xff}, 200), field == "balance"})
+		// lengths around the multiples of 256: a length kept in one byte wraps there
+		for _, n := range []int{255, 256, 257, 288, 512, 544} {
+			out = append(out, bmut{fmt.Sprintf("%dxff", n), bytes.Repeat([]byte{0xff}, n), field == "balance"})
+		}
 	}
 	return out
 }
@@ -508,6 +512,7 @@ func TestWireMut(t *testing.T) {
 	thorough := drv.Thorough()
 	nRandom := 3
 	protoEvery := 2
+	protoTypeSeen, envTypeSeen := map[int]bool{}, map[int]bool{}
 	if thorough {
 		nRandom, protoEvery = 40, 1
 	}
@@ -522,10 +527,18 @@ func TestWireMut(t *testing.T) {
 	for _, c := range cases {
 		if c.Ty == "Envelope" && c.Base == "value" {
 			envIdx++
-			if !thorough && os.Getenv("VERIF_REPLAY") == "" && envIdx%3 != 0 {
+			mt := -1
+			for _, t := range c.Toks {
+				if t.R == "type" {
+					mt = int(t.N)
+				}
+			}
+			// (the first envelope of every message type is always taken)
+			if !thorough && os.Getenv("VERIF_REPLAY") == "" && envIdx%3 != 0 && envTypeSeen[mt] {
 				res.Add("envelope_cases_left_to_thorough", 1)
 				continue
 			}
+			envTypeSeen[mt] = true
 		}
 		base, _ := w.stream(c.Toks)
 		add(&jobMeta{dec: c.Ty, data: base, exp: c.Base, class: "base:" + c.Why, desc: fmt.Sprintf("unmutated stream (%s)", c.Why), line: c.line})
@@ -575,9 +588,16 @@ func TestWireMut(t *testing.T) {
 			continue
 		}
 		nEnv++
-		if nEnv%protoEvery != 0 {
+		mtype := -1
+		for _, t := range c.Toks {
+			if t.R == "type" {
+				mtype = int(t.N)
+			}
+		}
+		if nEnv%protoEvery != 0 && protoTypeSeen[mtype] { // (the first envelope of every message type is always taken)
 			continue
 		}
+		protoTypeSeen[mtype] = true
 		// protobuf: structured mutants of the generated structs
 		var env *wire.Envelope
 		if err, pan := guard(func() error { var e error; env, e = nativeSer.Decode(bytes.NewBuffer(base)); return e }); err != nil || pan != "" {
